@@ -16,8 +16,10 @@ ASSUMPTIONS = ["exception classes are matched by name: the metaclass creates dis
 
 
 def shards(tier, seed):
-    n = 40 if tier == "quick" else 1500
-    return [{"id": k, "kind": k, "n": n} for k in ("blocksize", "opcode", "prin", "xcopy", "transportid")]
+    if tier == "quick":
+        return [{"id": k, "kind": k, "n": 40} for k in ("blocksize", "opcode", "prin", "xcopy", "transportid")]
+    # thorough: four independently seeded parts per kind
+    return [{"id": "%s.%d" % (k, i), "kind": k, "n": 1500} for k in ("blocksize", "opcode", "prin", "xcopy", "transportid") for i in range(4)]
 
 
 def attempt(ctx, label, klass, want, thunk, dev, wit, valid=False):
@@ -412,4 +414,5 @@ def finalize(merged, tier):
 
 
 def replay(rec, ctx):
-    run({"id": rec.get("shard"), "kind": rec.get("shard"), "n": 20}, ctx)
+    sh = rec.get("shard") or ""
+    run({"id": sh, "kind": sh.split(".")[0].split("@")[0], "n": 1500 if "." in sh else 40}, ctx)
